@@ -88,7 +88,7 @@ PROPS = {
                "prog.vmgen", "prog.progs", "prog.modgen"],
         rule="totality stream; EVERY implementation run (loader, compile, VM construction, run, second run, drop) happens in a "
              "child process `cao-verif-harness c04-worker <case file>` of the same build profile (debug in the quick tier, "
-             "debug and release in the thorough tier), at most 12 at a time, wall-clock limit 25 s per child; the observation is "
+             "debug and release in the thorough tier), at most 12 at a time, wall-clock limit 60 s per child; the observation is "
              "the last stage entered, the value each finished stage returned, and how the child ended (exit 0 / panic exit "
              "101 / signal / watchdog). Inputs: (a) texts through serde_json::from_str::<Module> and serde_yaml::from_str: "
              "serialisations of random modules, mutated (truncation, byte flips, deleted / duplicated spans, names replaced by "
